@@ -1059,9 +1059,180 @@ def r4_collision_and_forwarding(ctx, rid):
                                           f"`{p}` drops it", {"definitions": vals}, label=f"fallback {p}")
 
 
+# ------------------------------------------------------------------------------------------------
+# R5 source records of an in-edge operator name the source variable (producer / consumer agreement)
+# ------------------------------------------------------------------------------------------------
+
+def _helper_closure(ctx, f0, depth=3):
+    """f0 and the private helpers it (transitively) calls, each as its inlined view: [(view, original)]"""
+    members, todo = [f0], [(f0, 0)]
+    while todo:
+        fx, dpt = todo.pop()
+        if dpt >= depth:
+            continue
+        for c in walk_shallow(R.view(ctx, fx).node):
+            if isinstance(c, ast.Call):
+                g = R.private_helper(ctx, R.view(ctx, fx), c)
+                if g is not None and all(g.qual != m.qual for m in members):
+                    members.append(g)
+                    todo.append((g, dpt + 1))
+    return [(R.view(ctx, m), m) for m in members]
+
+
+def _record_keys(ctx, fv, e):
+    """key set of a record expression: a dict display, dict(k=v, ...), or a local bound once to one of these; None if unknown"""
+    e = _inline1(ctx, fv, e)
+    if isinstance(e, ast.Dict):
+        if all(isinstance(k, ast.Constant) and isinstance(k.value, str) for k in e.keys):
+            return [k.value for k in e.keys]
+        return None
+    if isinstance(e, ast.Call) and isinstance(e.func, ast.Name) and e.func.id == "dict" and not e.args and all(k.arg for k in e.keywords):
+        return [k.arg for k in e.keywords]
+    return None
+
+
+def _consumer_reads(ctx, rid):
+    """(consumer view, loop, record name, {key: [read nodes]}) - the keys CircuitIR._collect_ops reads from each input record"""
+    cls = ctx.repo.get_class(IR, "CircuitIR")
+    cons = R.view(ctx, get_method(ctx, cls, "_collect_ops"))
+    loops = [l for l in walk_shallow(cons.node) if isinstance(l, ast.For) and isinstance(l.iter, ast.Call) and call_name(l.iter) in ("items", "values")
+             and any(isinstance(x, ast.Constant) and x.value == "inputs" for x in ast.walk(_inline1(ctx, cons, l.iter.func.value)
+                                                                                           if isinstance(l.iter.func, ast.Attribute) else l.iter))]
+    if len(loops) != 1:
+        raise AnalysisError(f"{rid}: expected one loop over the operator's input records in CircuitIR._collect_ops, found {len(loops)}")
+    loop = loops[0]
+    tg = loop.target
+    rec = tg.elts[-1] if isinstance(tg, ast.Tuple) else tg
+    if not isinstance(rec, ast.Name):
+        raise AnalysisError(f"{rid}: unrecognised loop header `{norm(loop)}` in CircuitIR._collect_ops")
+    reads = {}
+    for n in walk_shallow(loop):
+        key = None
+        if isinstance(n, ast.Subscript) and isinstance(n.value, ast.Name) and n.value.id == rec.id and isinstance(n.slice, ast.Constant):
+            key = n.slice.value
+        elif isinstance(n, ast.Call) and call_name(n) in ("pop", "get") and isinstance(n.func, ast.Attribute) and isinstance(n.func.value, ast.Name) \
+                and n.func.value.id == rec.id and n.args and isinstance(n.args[0], ast.Constant):
+            key = n.args[0].value
+        elif isinstance(n, ast.Compare) and len(n.ops) == 1 and isinstance(n.ops[0], (ast.In, ast.NotIn)) and isinstance(n.left, ast.Constant) \
+                and isinstance(n.comparators[0], ast.Name) and n.comparators[0].id == rec.id:
+            key = n.left.value
+        if isinstance(key, str):
+            reads.setdefault(key, []).append(n)
+    return cons, loop, rec.id, reads
+
+
+def r5_source_records(ctx, rid):
+    """Producer/consumer agreement on the source records of a generated in-edge operator.  The edge-equation generator files one
+    record per source under the operator's `inputs`; CircuitIR._collect_ops reads 'sources', 'node' and 'var' from it and, when 'var'
+    is missing, silently substitutes the declared *output* of the source operator.  That fallback is meant for intra-node operator
+    inputs; a record that points at another node's operator must therefore name its variable, or the edge reads whatever the source
+    operator currently declares as output (another state variable, or the delayed copy installed for a sibling edge)."""
+    cons, loop, recname, reads = _consumer_reads(ctx, rid)
+    need = [k for k in ("sources", "node", "var") if k in reads]
+    if "var" not in reads:
+        ctx.violation(rid, cons, loop, "CircuitIR._collect_ops never reads the 'var' entry of an input record: every edge would read the declared "
+                                       "output of its source operator instead of the variable the edge names", label="consumer reads the source variable")
+    else:
+        # the variable read from the record must become the variable part of the looked-up key <node>/<op>/<var>
+        var_reads = reads["var"]
+        holders = set()
+        for s in walk_shallow(loop):
+            if isinstance(s, ast.Assign) and any(any(x is r for x in ast.walk(s.value)) for r in var_reads):
+                holders |= {t.id for t in s.targets if isinstance(t, ast.Name)}
+        keys = [n for n in walk_shallow(loop) if isinstance(n, ast.JoinedStr) and re.fullmatch(r"⟨[^⟩]*⟩/⟨[^⟩]*⟩/⟨[^⟩]*⟩", fstring_template(n) or "")]
+        used = False
+        for k in keys:
+            h = fstring_holes(k)[2]
+            seen, todo = set(), [h]
+            while todo and not used:
+                e = todo.pop()
+                for x in ast.walk(e):
+                    if any(x is r for r in var_reads) or (isinstance(x, ast.Name) and x.id in holders):
+                        used = True
+                    elif isinstance(x, ast.Name) and isinstance(x.ctx, ast.Load) and x.id not in seen and getattr(x, "_parent", None) is not None:
+                        seen.add(x.id)
+                        for d in ctx.rd(cons).defs_reaching(x):
+                            from engine.dataflow import assigned_value
+                            v = assigned_value(d, x.id) if isinstance(d, (ast.Assign, ast.AnnAssign)) else None
+                            if v is not None:
+                                todo.append(v)
+        if not keys:
+            raise AnalysisError(f"{rid}: the '<node>/<op>/<var>' lookup key of an input was not found in CircuitIR._collect_ops (unrecognised form)")
+        if used:
+            ctx.ok(rid, cons, loop, "the consumer takes the variable part of '<node>/<op>/<var>' from the record's 'var' entry when it is present "
+                                    "(declared operator output only as fallback)", {"keys_read": sorted(reads)}, label="consumer reads the source variable")
+        else:
+            ctx.violation(rid, cons, loop, "the record's 'var' entry is read but does not reach the variable part of the looked-up key "
+                                           "'<node>/<op>/<var>': the edge would read the source operator's declared output",
+                          {"keys_read": sorted(reads)}, label="consumer reads the source variable")
+    # ---- producer: every record stored under the in-edge operator's inputs ---------------------------------------------------
+    f0 = ctx.repo.get_func(IR, "NetworkGraph._generate_edge_equation")
+    members = _helper_closure(ctx, f0)
+    sites = []                                   # (view, dict name) handed to add_op(..., inputs=<name>)
+    for fv, fo in members:
+        for c in walk_shallow(fv.node):
+            if isinstance(c, ast.Call) and call_name(c) == "add_op":
+                for k in c.keywords:
+                    if k.arg == "inputs":
+                        if not isinstance(k.value, ast.Name):
+                            raise AnalysisError(f"{rid}: `{norm(c)}`: the inputs of the in-edge operator are not a named dict (unrecognised form)")
+                        sites.append((fv, k.value.id))
+    if len(sites) != 1:
+        raise AnalysisError(f"{rid}: expected one add_op(..., inputs=...) call creating the in-edge operator, found {len(sites)}")
+    # the same dict object under the names it has in the helpers it is handed to / received from
+    comp = {(sites[0][0].qual, sites[0][1])}
+    changed = True
+    while changed:
+        changed = False
+        for fv, fo in members:
+            for c in walk_shallow(fv.node):
+                if not isinstance(c, ast.Call):
+                    continue
+                g = R.private_helper(ctx, fv, c)
+                binding = R.bind_args(c, g) if g is not None else None
+                if not binding:
+                    continue
+                for p, a in binding.items():
+                    if isinstance(a, ast.Name):
+                        x, y = (fv.qual, a.id), (g.qual, p)
+                        if (x in comp) != (y in comp):
+                            comp |= {x, y}
+                            changed = True
+    n_rec = 0
+    for fv, fo in members:
+        names = {nm for q, nm in comp if q == fv.qual}
+        for s in sorted((x for x in walk_shallow(fv.node) if isinstance(x, ast.stmt)), key=lambda x: (x.lineno, x.col_offset)):
+            if isinstance(s, ast.Expr) and isinstance(s.value, ast.Call) and isinstance(s.value.func, ast.Attribute) \
+                    and isinstance(s.value.func.value, ast.Name) and s.value.func.value.id in names and s.value.func.attr in ("update", "setdefault"):
+                raise AnalysisError(f"{rid}: `{norm(s)}` fills the in-edge operator's inputs in an unrecognised form")
+            if not (isinstance(s, ast.Assign) and len(s.targets) == 1 and isinstance(s.targets[0], ast.Subscript)
+                    and isinstance(s.targets[0].value, ast.Name) and s.targets[0].value.id in names):
+                continue
+            keys = _record_keys(ctx, fv, s.value)
+            if keys is None:
+                raise AnalysisError(f"{rid}: cannot read the keys of the source record `{norm(s)}` in {fv.qual} (unrecognised form)")
+            n_rec += 1
+            missing = [k for k in need if k not in keys]
+            label = _uniq(ctx, rid, fv, f"source record: {norm(s.targets[0])}")
+            facts = {"record_keys": keys, "consumer_reads": sorted(reads)}
+            if not missing:
+                ctx.ok(rid, fv, s, f"the source record names {need} - the consumer never has to guess the variable", facts, label=label)
+            elif missing == ["var"] or "var" in missing:
+                ctx.violation(rid, fv, s, f"the source record `{norm(s.value)}` of the in-edge operator does not name the source variable ('var'): "
+                                          f"CircuitIR._collect_ops falls back to the declared output of the source operator, so the edge is "
+                                          f"computed on another variable whenever the named source is not that output (or a delayed sibling edge "
+                                          f"re-pointed it)", facts, label=label)
+            else:
+                ctx.violation(rid, fv, s, f"the source record `{norm(s.value)}` lacks {missing}, which CircuitIR._collect_ops reads: the source would be "
+                                          f"looked up on the target node", facts, label=label)
+    if n_rec < 2:
+        raise AnalysisError(f"{rid}: only {n_rec} source records found for the in-edge operator (the records dict is no longer followed)")
+
+
 RULES = [
     ("C16-R1", r1_index_roles, 30),
     ("C16-R2", r2_coupling_helpers, 14),
     ("C16-R3", r3_population_params, 6),
     ("C16-R4", r4_collision_and_forwarding, 10),
+    ("C16-R5", r5_source_records, 4),
 ]
